@@ -141,8 +141,8 @@ def classify(y, rounds, st, kind):
     """Signature: the failing input class."""
     n = y.shape[1]
     if kind == 3:
-        if st[4] >= 3:
-            return "upper_bound|exceeded|separation_min>=3"
+        if st[4] >= 3 or st[0] >= 3 or st[2] >= 3:
+            return "upper_bound|exceeded|a minimum (separation or streak) >= 3"
         return f"upper_bound|exceeded|setting={st}"
     self_play = [t for t in range(n)
                  if any(abs(int(v)) == t + 1 for v in y[:, t])]
